@@ -53,6 +53,20 @@ func (s *NegationVisitor) ExitOC_StringListNullPredicateExpression(ctx *parser.O
 	s.Negation.Expression = result
 }
 
+// nestNegations wraps the innermost negation once for every additional NOT token of the run the grammar
+// allows, so that `not not x` keeps both negations.
+func nestNegations(innermost *cypher.Negation, numNegations int) *cypher.Negation {
+	negation := innermost
+
+	for remaining := numNegations - 1; remaining > 0; remaining-- {
+		negation = &cypher.Negation{
+			Expression: negation,
+		}
+	}
+
+	return negation
+}
+
 type JoiningVisitor struct {
 	BaseVisitor
 
@@ -70,7 +84,7 @@ func (s *JoiningVisitor) EnterOC_NotExpression(ctx *parser.OC_NotExpressionConte
 func (s *JoiningVisitor) ExitOC_NotExpression(ctx *parser.OC_NotExpressionContext) {
 	if len(ctx.AllNOT()) > 0 {
 		visitor := s.ctx.Exit().(*NegationVisitor)
-		s.Joined.Add(visitor.Negation)
+		s.Joined.Add(nestNegations(visitor.Negation, len(ctx.AllNOT())))
 	}
 }
 
